@@ -16,7 +16,7 @@ from vf.harness import c01, c02
 from vf.ref import refexec
 
 PID = 'C05'
-RETS = ['ok', 'continue', 'fail', 'fail_subtest', 'skip', 'stop', 'repeat', 'raise', 'bad', 'bad0', 'hang']
+RETS = ['ok', 'continue', 'fail', 'fail_subtest', 'skip', 'stop', 'repeat', 'raise', 'bad', 'bad0', 'hang', 'sysexit']
 MEAS_DIAG = [
     ('none', []), ('pass', []), ('fail', []), ('unset', []), ('marg', []), (['fail', 'pass'], []), (['unset', 'fail', 'pass'], []),
     ('none', ['A']), ('none', ['FA']), ('none', ['raise']), ('none', ['raise', 'FA']), ('none', ['none', 'A']),
